@@ -1,7 +1,832 @@
-//! C20: not built yet.
-use anyhow::{bail, Result};
-use serde_json::Value;
+//! C20: raw_class_file reads and writes class files byte-exactly.
+//!
+//! Abstract raw value (spec/duke/RawLayout.tla): a JSON tree mirroring the crate's public structs field by field.
+//! A structure is an object of its fields; a member of a tagged union additionally has "k" = the variant
+//! (JVMS spelling: UninitializedThis / Uninitialized; ChopFrame's `k` travels as "chop", BootstrapMethodsEntry's
+//! `boostrap_arguments` as "bootstrap_arguments"); tables are arrays; u1/u2 are numbers; a u4 datum
+//! (Integer/Float/Long/Double payload) is [high half, low half] because TLC integers are 32 bit signed.
+//!
+//! ops  {"op":"value","x":raw value,"lay":[[role,width]..]?,"wf":bool}
+//!          build the crate's ClassFile from x, to_bytes(), write(), length(), read() of the written bytes, cross-read
+//!          by cfkit::parse::parse_class and duke::read_class
+//!          -> {"len":bytes written,"announced":length(),"bytes":[..],"write_same":write()==to_bytes(),
+//!              "counts":[[role,width,value]..] (the written bytes cut along "lay", the cells with a role kept),
+//!              "back_ok","back_equal","back_panic", "cfkit_ok","cfkit_err","duke_ok","duke_panic"}
+//!      {"op":"bytes","id":"corpus:<path>" | "sample:<name>:<encoding>" | "kitchen:<encoding>"}
+//!          ClassFile::read of the class, to_bytes(), compared with the input
+//!          -> {"n","in_ok" (cfkit accepts the input),"in_kinds":[constant kinds],"in_attrs":[attribute names],
+//!              "in_wide","in_foreign":[modelled attribute names the independent reader kept opaque],"in_cells":[[role,width,value]..] (cfkit's count/length spans of the input),
+//!              "read_ok","read_panic","read_err","out_n","first_diff","announced","out_cfkit_ok","out_duke_ok",
+//!              "in_duke_ok","out_cells","diff":{off,role,path,attr,in_v,out_v}|[],"has_x","x":raw value read (small classes only)|[]}
+//! The driver converts and observes; every judgement is made by Trace_RawLayout / the vectors of MC_RawLayout.
+use std::collections::{BTreeMap, BTreeSet, HashMap};
+use std::io::Cursor;
+use std::panic::{catch_unwind, AssertUnwindSafe};
+use std::sync::OnceLock;
+use anyhow::{anyhow, bail, Context, Result};
+use rand::rngs::StdRng;
+use rand::seq::SliceRandom;
+use rand::{Rng, SeedableRng};
+use serde_json::{json, Map, Value};
+use raw_class_file as r;
+use cfkit::parse::{parse_class, Span};
 
-pub fn exec(_v: &Value) -> Result<Value> { bail!("C20: driver not built") }
+// ------------------------------------------------------------------------------------------------
+// JSON -> raw value
+static EMPTY: Vec<Value> = Vec::new();
 
-pub fn gen(_seed: u64, _n: usize) -> Result<Vec<Value>> { bail!("C20: driver not built") }
+fn num(v: &Value, k: &str) -> Result<u64> {
+	v.get(k).and_then(Value::as_u64).with_context(|| format!("number field `{k}` in {}", short(v)))
+}
+fn short(v: &Value) -> String { let s = v.to_string(); if s.len() > 200 { format!("{}...", &s[..200]) } else { s } }
+fn u8_(v: &Value, k: &str) -> Result<u8> { u8::try_from(num(v, k)?).with_context(|| format!("`{k}` does not fit u8")) }
+fn u16_(v: &Value, k: &str) -> Result<u16> { u16::try_from(num(v, k)?).with_context(|| format!("`{k}` does not fit u16")) }
+fn halves(v: &Value, k: &str) -> Result<u32> {
+	let a = arr(v, k)?;
+	if a.len() != 2 { bail!("`{k}` is not a pair of halves") }
+	let (h, l) = (a[0].as_u64().context("half")?, a[1].as_u64().context("half")?);
+	if h > 0xffff || l > 0xffff { bail!("half out of range") }
+	Ok(((h as u32) << 16) | l as u32)
+}
+fn arr<'a>(v: &'a Value, k: &str) -> Result<&'a Vec<Value>> {
+	match v.get(k) {
+		Some(Value::Array(a)) => Ok(a),
+		Some(Value::Object(m)) if m.is_empty() => Ok(&EMPTY),
+		_ => bail!("table field `{k}` in {}", short(v)),
+	}
+}
+fn kind(v: &Value) -> Result<&str> { v.get("k").and_then(Value::as_str).with_context(|| format!("variant key in {}", short(v))) }
+fn table<T>(v: &Value, k: &str, f: impl Fn(&Value) -> Result<T>) -> Result<Vec<T>> { arr(v, k)?.iter().map(f).collect() }
+fn u8s(v: &Value, k: &str) -> Result<Vec<u8>> {
+	arr(v, k)?.iter().map(|x| x.as_u64().and_then(|n| u8::try_from(n).ok()).with_context(|| format!("byte in `{k}`"))).collect()
+}
+fn u16s(v: &Value, k: &str) -> Result<Vec<u16>> {
+	arr(v, k)?.iter().map(|x| x.as_u64().and_then(|n| u16::try_from(n).ok()).with_context(|| format!("u2 in `{k}`"))).collect()
+}
+
+/// structures whose fields are all u2: both directions from one field list
+macro_rules! plain16 {
+	($from:ident, $to:ident, $t:ident { $($f:ident),* }) => {
+		fn $from(v: &Value) -> Result<r::$t> { Ok(r::$t { $($f: u16_(v, stringify!($f))?),* }) }
+		fn $to(x: &r::$t) -> Value { json!({ $(stringify!($f): x.$f),* }) }
+	};
+}
+plain16!(exc_from, exc_to, ExceptionTableEntry { start_pc, end_pc, handler_pc, catch_type });
+plain16!(ic_from, ic_to, InnerClassesEntry { inner_class_info_index, outer_class_info_index, inner_name_index, inner_class_access_flags });
+plain16!(lnt_from, lnt_to, LineNumberTableEntry { start_pc, line_number });
+plain16!(lvt_from, lvt_to, LocalVariableTableEntry { start_pc, length, name_index, descriptor_index, index });
+plain16!(lvtt_from, lvtt_to, LocalVariableTypeTableEntry { start_pc, length, name_index, signature_index, index });
+plain16!(mp_from, mp_to, MethodParametersEntry { name_index, access_flags });
+plain16!(req_from, req_to, ModuleRequiresEntry { requires_index, requires_flags, requires_version_index });
+
+fn cp_from(v: &Value) -> Result<r::CpInfo> {
+	use r::CpInfo as C;
+	Ok(match kind(v)? {
+		"Utf8" => C::Utf8 { bytes: u8s(v, "bytes")? },
+		"Integer" => C::Integer { bytes: halves(v, "bytes")? },
+		"Float" => C::Float { bytes: halves(v, "bytes")? },
+		"Long" => C::Long { high_bytes: halves(v, "high_bytes")?, low_bytes: halves(v, "low_bytes")? },
+		"Double" => C::Double { high_bytes: halves(v, "high_bytes")?, low_bytes: halves(v, "low_bytes")? },
+		"Class" => C::Class { name_index: u16_(v, "name_index")? },
+		"String" => C::String { string_index: u16_(v, "string_index")? },
+		"Fieldref" => C::Fieldref { class_index: u16_(v, "class_index")?, name_and_type_index: u16_(v, "name_and_type_index")? },
+		"Methodref" => C::Methodref { class_index: u16_(v, "class_index")?, name_and_type_index: u16_(v, "name_and_type_index")? },
+		"InterfaceMethodref" => C::InterfaceMethodref { class_index: u16_(v, "class_index")?, name_and_type_index: u16_(v, "name_and_type_index")? },
+		"NameAndType" => C::NameAndType { name_index: u16_(v, "name_index")?, descriptor_index: u16_(v, "descriptor_index")? },
+		"MethodHandle" => C::MethodHandle { reference_kind: u8_(v, "reference_kind")?, reference_index: u16_(v, "reference_index")? },
+		"MethodType" => C::MethodType { descriptor_index: u16_(v, "descriptor_index")? },
+		"Dynamic" => C::Dynamic { bootstrap_method_attr_index: u16_(v, "bootstrap_method_attr_index")?, name_and_type_index: u16_(v, "name_and_type_index")? },
+		"InvokeDynamic" => C::InvokeDynamic { bootstrap_method_attr_index: u16_(v, "bootstrap_method_attr_index")?, name_and_type_index: u16_(v, "name_and_type_index")? },
+		"Module" => C::Module { name_index: u16_(v, "name_index")? },
+		"Package" => C::Package { name_index: u16_(v, "name_index")? },
+		k => bail!("unknown constant kind {k}"),
+	})
+}
+fn h(x: u32) -> Value { json!([x >> 16, x & 0xffff]) }
+fn cp_to(c: &r::CpInfo) -> Value {
+	use r::CpInfo as C;
+	match c {
+		C::Utf8 { bytes } => json!({"k": "Utf8", "bytes": bytes}),
+		C::Integer { bytes } => json!({"k": "Integer", "bytes": h(*bytes)}),
+		C::Float { bytes } => json!({"k": "Float", "bytes": h(*bytes)}),
+		C::Long { high_bytes, low_bytes } => json!({"k": "Long", "high_bytes": h(*high_bytes), "low_bytes": h(*low_bytes)}),
+		C::Double { high_bytes, low_bytes } => json!({"k": "Double", "high_bytes": h(*high_bytes), "low_bytes": h(*low_bytes)}),
+		C::Class { name_index } => json!({"k": "Class", "name_index": name_index}),
+		C::String { string_index } => json!({"k": "String", "string_index": string_index}),
+		C::Fieldref { class_index, name_and_type_index } => json!({"k": "Fieldref", "class_index": class_index, "name_and_type_index": name_and_type_index}),
+		C::Methodref { class_index, name_and_type_index } => json!({"k": "Methodref", "class_index": class_index, "name_and_type_index": name_and_type_index}),
+		C::InterfaceMethodref { class_index, name_and_type_index } => json!({"k": "InterfaceMethodref", "class_index": class_index, "name_and_type_index": name_and_type_index}),
+		C::NameAndType { name_index, descriptor_index } => json!({"k": "NameAndType", "name_index": name_index, "descriptor_index": descriptor_index}),
+		C::MethodHandle { reference_kind, reference_index } => json!({"k": "MethodHandle", "reference_kind": reference_kind, "reference_index": reference_index}),
+		C::MethodType { descriptor_index } => json!({"k": "MethodType", "descriptor_index": descriptor_index}),
+		C::Dynamic { bootstrap_method_attr_index, name_and_type_index } => json!({"k": "Dynamic", "bootstrap_method_attr_index": bootstrap_method_attr_index, "name_and_type_index": name_and_type_index}),
+		C::InvokeDynamic { bootstrap_method_attr_index, name_and_type_index } => json!({"k": "InvokeDynamic", "bootstrap_method_attr_index": bootstrap_method_attr_index, "name_and_type_index": name_and_type_index}),
+		C::Module { name_index } => json!({"k": "Module", "name_index": name_index}),
+		C::Package { name_index } => json!({"k": "Package", "name_index": name_index}),
+	}
+}
+
+fn vt_from(v: &Value) -> Result<r::VerificationTypeInfo> {
+	use r::VerificationTypeInfo as T;
+	Ok(match kind(v)? {
+		"Top" => T::Top {}, "Integer" => T::Integer {}, "Float" => T::Float {}, "Double" => T::Double {}, "Long" => T::Long {},
+		"Null" => T::Null {}, "UninitializedThis" => T::UnintializedThis {},
+		"Object" => T::Object { cpool_index: u16_(v, "cpool_index")? },
+		"Uninitialized" => T::Unintialized { offset: u16_(v, "offset")? },
+		k => bail!("unknown verification type {k}"),
+	})
+}
+fn vt_to(t: &r::VerificationTypeInfo) -> Value {
+	use r::VerificationTypeInfo as T;
+	match t {
+		T::Top {} => json!({"k": "Top"}), T::Integer {} => json!({"k": "Integer"}), T::Float {} => json!({"k": "Float"}),
+		T::Double {} => json!({"k": "Double"}), T::Long {} => json!({"k": "Long"}), T::Null {} => json!({"k": "Null"}),
+		T::UnintializedThis {} => json!({"k": "UninitializedThis"}),
+		T::Object { cpool_index } => json!({"k": "Object", "cpool_index": cpool_index}),
+		T::Unintialized { offset } => json!({"k": "Uninitialized", "offset": offset}),
+	}
+}
+fn one<T>(v: &Value, k: &str, f: impl Fn(&Value) -> Result<T>) -> Result<T> { f(v.get(k).with_context(|| format!("field `{k}` in {}", short(v)))?) }
+
+fn frame_from(v: &Value) -> Result<r::StackMapFrame> {
+	use r::StackMapFrame as F;
+	Ok(match kind(v)? {
+		"SameFrame" => F::SameFrame { offset_delta: u8_(v, "offset_delta")? },
+		"SameLocals1StackItemFrame" => F::SameLocals1StackItemFrame { offset_delta: u8_(v, "offset_delta")?, stack: one(v, "stack", vt_from)? },
+		"SameLocals1StackItemFrameExtended" => F::SameLocals1StackItemFrameExtended { offset_delta: u16_(v, "offset_delta")?, stack: one(v, "stack", vt_from)? },
+		"ChopFrame" => F::ChopFrame { k: u8_(v, "chop")?, offset_delta: u16_(v, "offset_delta")? },
+		"SameFrameExtended" => F::SameFrameExtended { offset_delta: u16_(v, "offset_delta")? },
+		"AppendFrame" => F::AppendFrame { offset_delta: u16_(v, "offset_delta")?, locals: table(v, "locals", vt_from)? },
+		"FullFrame" => F::FullFrame { offset_delta: u16_(v, "offset_delta")?, locals: table(v, "locals", vt_from)?, stack: table(v, "stack", vt_from)? },
+		k => bail!("unknown frame kind {k}"),
+	})
+}
+fn list<T>(s: &[T], f: impl Fn(&T) -> Value) -> Value { Value::Array(s.iter().map(f).collect()) }
+fn frame_to(f: &r::StackMapFrame) -> Value {
+	use r::StackMapFrame as F;
+	match f {
+		F::SameFrame { offset_delta } => json!({"k": "SameFrame", "offset_delta": offset_delta}),
+		F::SameLocals1StackItemFrame { offset_delta, stack } => json!({"k": "SameLocals1StackItemFrame", "offset_delta": offset_delta, "stack": vt_to(stack)}),
+		F::SameLocals1StackItemFrameExtended { offset_delta, stack } => json!({"k": "SameLocals1StackItemFrameExtended", "offset_delta": offset_delta, "stack": vt_to(stack)}),
+		F::ChopFrame { k, offset_delta } => json!({"k": "ChopFrame", "chop": k, "offset_delta": offset_delta}),
+		F::SameFrameExtended { offset_delta } => json!({"k": "SameFrameExtended", "offset_delta": offset_delta}),
+		F::AppendFrame { offset_delta, locals } => json!({"k": "AppendFrame", "offset_delta": offset_delta, "locals": list(locals, vt_to)}),
+		F::FullFrame { offset_delta, locals, stack } => json!({"k": "FullFrame", "offset_delta": offset_delta, "locals": list(locals, vt_to), "stack": list(stack, vt_to)}),
+	}
+}
+
+fn anno_from(v: &Value) -> Result<r::Annotation> {
+	Ok(r::Annotation { type_index: u16_(v, "type_index")?, element_value_pairs: table(v, "element_value_pairs", |p| {
+		Ok(r::ElementValuePairsEntry { element_name_index: u16_(p, "element_name_index")?, value: one(p, "value", ev_from)? })
+	})? })
+}
+fn anno_to(a: &r::Annotation) -> Value {
+	json!({"type_index": a.type_index, "element_value_pairs": list(&a.element_value_pairs, |p| json!({"element_name_index": p.element_name_index, "value": ev_to(&p.value)}))})
+}
+fn ev_from(v: &Value) -> Result<r::ElementValue> {
+	use r::ElementValue as E;
+	let c = || u16_(v, "const_value_index");
+	Ok(match kind(v)? {
+		"Byte" => E::Byte { const_value_index: c()? }, "Char" => E::Char { const_value_index: c()? }, "Double" => E::Double { const_value_index: c()? },
+		"Float" => E::Float { const_value_index: c()? }, "Integer" => E::Integer { const_value_index: c()? }, "Long" => E::Long { const_value_index: c()? },
+		"Short" => E::Short { const_value_index: c()? }, "Boolean" => E::Boolean { const_value_index: c()? }, "String" => E::String { const_value_index: c()? },
+		"Enum" => E::Enum { type_name_index: u16_(v, "type_name_index")?, const_name_index: u16_(v, "const_name_index")? },
+		"Class" => E::Class { class_info_index: u16_(v, "class_info_index")? },
+		"Annotation" => E::Annotation { annotation_value: one(v, "annotation_value", anno_from)? },
+		"Array" => E::Array { values: table(v, "values", ev_from)? },
+		k => bail!("unknown element value kind {k}"),
+	})
+}
+fn ev_to(e: &r::ElementValue) -> Value {
+	use r::ElementValue as E;
+	let c = |k: &str, i: &u16| json!({"k": k, "const_value_index": i});
+	match e {
+		E::Byte { const_value_index } => c("Byte", const_value_index), E::Char { const_value_index } => c("Char", const_value_index),
+		E::Double { const_value_index } => c("Double", const_value_index), E::Float { const_value_index } => c("Float", const_value_index),
+		E::Integer { const_value_index } => c("Integer", const_value_index), E::Long { const_value_index } => c("Long", const_value_index),
+		E::Short { const_value_index } => c("Short", const_value_index), E::Boolean { const_value_index } => c("Boolean", const_value_index),
+		E::String { const_value_index } => c("String", const_value_index),
+		E::Enum { type_name_index, const_name_index } => json!({"k": "Enum", "type_name_index": type_name_index, "const_name_index": const_name_index}),
+		E::Class { class_info_index } => json!({"k": "Class", "class_info_index": class_info_index}),
+		E::Annotation { annotation_value } => json!({"k": "Annotation", "annotation_value": anno_to(annotation_value)}),
+		E::Array { values } => json!({"k": "Array", "values": list(values, ev_to)}),
+	}
+}
+fn pa_from(v: &Value) -> Result<r::ParameterAnnotationEntry> { Ok(r::ParameterAnnotationEntry { annotations: table(v, "annotations", anno_from)? }) }
+fn pa_to(p: &r::ParameterAnnotationEntry) -> Value { json!({"annotations": list(&p.annotations, anno_to)}) }
+
+fn attr_from(v: &Value) -> Result<r::AttributeInfo> {
+	use r::AttributeInfo as A;
+	let attribute_name_index = u16_(v, "attribute_name_index")?;
+	Ok(match kind(v)? {
+		"ConstantValue" => A::ConstantValue { attribute_name_index, constantvalue_index: u16_(v, "constantvalue_index")? },
+		"Code" => A::Code {
+			attribute_name_index, max_stack: u16_(v, "max_stack")?, max_locals: u16_(v, "max_locals")?, code: u8s(v, "code")?,
+			exception_table: table(v, "exception_table", exc_from)?, attributes: table(v, "attributes", attr_from)?,
+		},
+		"StackMapTable" => A::StackMapTable { attribute_name_index, entries: table(v, "entries", frame_from)? },
+		"Exceptions" => A::Exceptions { attribute_name_index, exception_index_table: u16s(v, "exception_index_table")? },
+		"InnerClasses" => A::InnerClasses { attribute_name_index, classes: table(v, "classes", ic_from)? },
+		"EnclosingMethod" => A::EnclosingMethod { attribute_name_index, class_index: u16_(v, "class_index")?, method_index: u16_(v, "method_index")? },
+		"Synthetic" => A::Synthetic { attribute_name_index },
+		"Signature" => A::Signature { attribute_name_index, signature_index: u16_(v, "signature_index")? },
+		"SourceFile" => A::SourceFile { attribute_name_index, sourcefile_index: u16_(v, "sourcefile_index")? },
+		"SourceDebugExtension" => A::SourceDebugExtension { attribute_name_index, debug_extension: u8s(v, "debug_extension")? },
+		"LineNumberTable" => A::LineNumberTable { attribute_name_index, line_number_table: table(v, "line_number_table", lnt_from)? },
+		"LocalVariableTable" => A::LocalVariableTable { attribute_name_index, local_variable_table: table(v, "local_variable_table", lvt_from)? },
+		"LocalVariableTypeTable" => A::LocalVariableTypeTable { attribute_name_index, local_variable_type_table: table(v, "local_variable_type_table", lvtt_from)? },
+		"Deprecated" => A::Deprecated { attribute_name_index },
+		"RuntimeVisibleAnnotations" => A::RuntimeVisibleAnnotations { attribute_name_index, annotations: table(v, "annotations", anno_from)? },
+		"RuntimeInvisibleAnnotations" => A::RuntimeInvisibleAnnotations { attribute_name_index, annotations: table(v, "annotations", anno_from)? },
+		"RuntimeVisibleParameterAnnotations" => A::RuntimeVisibleParameterAnnotations { attribute_name_index, parameter_annotations: table(v, "parameter_annotations", pa_from)? },
+		"RuntimeInvisibleParameterAnnotations" => A::RuntimeInvisibleParameterAnnotations { attribute_name_index, parameter_annotations: table(v, "parameter_annotations", pa_from)? },
+		"AnnotationDefault" => A::AnnotationDefault { attribute_name_index, default_value: one(v, "default_value", ev_from)? },
+		"BootstrapMethods" => A::BootstrapMethods { attribute_name_index, bootstrap_methods: table(v, "bootstrap_methods", |b| {
+			Ok(r::BootstrapMethodsEntry { bootstrap_method_ref: u16_(b, "bootstrap_method_ref")?, boostrap_arguments: u16s(b, "bootstrap_arguments")? })
+		})? },
+		"MethodParameters" => A::MethodParameters { attribute_name_index, parameters: table(v, "parameters", mp_from)? },
+		"Module" => A::Module {
+			attribute_name_index, module_name_index: u16_(v, "module_name_index")?, module_flags: u16_(v, "module_flags")?,
+			module_version_index: u16_(v, "module_version_index")?,
+			requires: table(v, "requires", req_from)?,
+			exports: table(v, "exports", |e| Ok(r::ModuleExportsEntry { exports_index: u16_(e, "exports_index")?, exports_flags: u16_(e, "exports_flags")?, exports_to_index: u16s(e, "exports_to_index")? }))?,
+			opens: table(v, "opens", |e| Ok(r::ModuleOpensEntry { opens_index: u16_(e, "opens_index")?, opens_flags: u16_(e, "opens_flags")?, opens_to_index: u16s(e, "opens_to_index")? }))?,
+			uses_index: u16s(v, "uses_index")?,
+			provides: table(v, "provides", |e| Ok(r::ModuleProvidesEntry { provides_index: u16_(e, "provides_index")?, provides_with_index: u16s(e, "provides_with_index")? }))?,
+		},
+		"ModulePackages" => A::ModulePackages { attribute_name_index, package_index: u16s(v, "package_index")? },
+		"ModuleMainClass" => A::ModuleMainClass { attribute_name_index, main_class_index: u16_(v, "main_class_index")? },
+		"NestHost" => A::NestHost { attribute_name_index, host_class_index: u16_(v, "host_class_index")? },
+		"NestMembers" => A::NestMembers { attribute_name_index, classes: u16s(v, "classes")? },
+		"Record" => A::Record { attribute_name_index, components: table(v, "components", |c| {
+			Ok(r::RecordComponentInfo { name_index: u16_(c, "name_index")?, descriptor_index: u16_(c, "descriptor_index")?, attributes: table(c, "attributes", attr_from)? })
+		})? },
+		"PermittedSubclasses" => A::PermittedSubclasses { attribute_name_index, classes: u16s(v, "classes")? },
+		"Other" => A::Other { attribute_name_index, info: u8s(v, "info")? },
+		k => bail!("unknown attribute kind {k}"),
+	})
+}
+
+fn attr_to(a: &r::AttributeInfo) -> Value {
+	use r::AttributeInfo as A;
+	let mut v = match a {
+		A::ConstantValue { constantvalue_index, .. } => json!({"k": "ConstantValue", "constantvalue_index": constantvalue_index}),
+		A::Code { max_stack, max_locals, code, exception_table, attributes, .. } => json!({
+			"k": "Code", "max_stack": max_stack, "max_locals": max_locals, "code": code,
+			"exception_table": list(exception_table, exc_to), "attributes": list(attributes, attr_to)}),
+		A::StackMapTable { entries, .. } => json!({"k": "StackMapTable", "entries": list(entries, frame_to)}),
+		A::Exceptions { exception_index_table, .. } => json!({"k": "Exceptions", "exception_index_table": exception_index_table}),
+		A::InnerClasses { classes, .. } => json!({"k": "InnerClasses", "classes": list(classes, ic_to)}),
+		A::EnclosingMethod { class_index, method_index, .. } => json!({"k": "EnclosingMethod", "class_index": class_index, "method_index": method_index}),
+		A::Synthetic { .. } => json!({"k": "Synthetic"}),
+		A::Signature { signature_index, .. } => json!({"k": "Signature", "signature_index": signature_index}),
+		A::SourceFile { sourcefile_index, .. } => json!({"k": "SourceFile", "sourcefile_index": sourcefile_index}),
+		A::SourceDebugExtension { debug_extension, .. } => json!({"k": "SourceDebugExtension", "debug_extension": debug_extension}),
+		A::LineNumberTable { line_number_table, .. } => json!({"k": "LineNumberTable", "line_number_table": list(line_number_table, lnt_to)}),
+		A::LocalVariableTable { local_variable_table, .. } => json!({"k": "LocalVariableTable", "local_variable_table": list(local_variable_table, lvt_to)}),
+		A::LocalVariableTypeTable { local_variable_type_table, .. } => json!({"k": "LocalVariableTypeTable", "local_variable_type_table": list(local_variable_type_table, lvtt_to)}),
+		A::Deprecated { .. } => json!({"k": "Deprecated"}),
+		A::RuntimeVisibleAnnotations { annotations, .. } => json!({"k": "RuntimeVisibleAnnotations", "annotations": list(annotations, anno_to)}),
+		A::RuntimeInvisibleAnnotations { annotations, .. } => json!({"k": "RuntimeInvisibleAnnotations", "annotations": list(annotations, anno_to)}),
+		A::RuntimeVisibleParameterAnnotations { parameter_annotations, .. } => json!({"k": "RuntimeVisibleParameterAnnotations", "parameter_annotations": list(parameter_annotations, pa_to)}),
+		A::RuntimeInvisibleParameterAnnotations { parameter_annotations, .. } => json!({"k": "RuntimeInvisibleParameterAnnotations", "parameter_annotations": list(parameter_annotations, pa_to)}),
+		A::AnnotationDefault { default_value, .. } => json!({"k": "AnnotationDefault", "default_value": ev_to(default_value)}),
+		A::BootstrapMethods { bootstrap_methods, .. } => json!({"k": "BootstrapMethods", "bootstrap_methods": list(bootstrap_methods, |b| json!({"bootstrap_method_ref": b.bootstrap_method_ref, "bootstrap_arguments": b.boostrap_arguments}))}),
+		A::MethodParameters { parameters, .. } => json!({"k": "MethodParameters", "parameters": list(parameters, mp_to)}),
+		A::Module { module_name_index, module_flags, module_version_index, requires, exports, opens, uses_index, provides, .. } => json!({
+			"k": "Module", "module_name_index": module_name_index, "module_flags": module_flags, "module_version_index": module_version_index,
+			"requires": list(requires, req_to),
+			"exports": list(exports, |e| json!({"exports_index": e.exports_index, "exports_flags": e.exports_flags, "exports_to_index": e.exports_to_index})),
+			"opens": list(opens, |e| json!({"opens_index": e.opens_index, "opens_flags": e.opens_flags, "opens_to_index": e.opens_to_index})),
+			"uses_index": uses_index,
+			"provides": list(provides, |e| json!({"provides_index": e.provides_index, "provides_with_index": e.provides_with_index}))}),
+		A::ModulePackages { package_index, .. } => json!({"k": "ModulePackages", "package_index": package_index}),
+		A::ModuleMainClass { main_class_index, .. } => json!({"k": "ModuleMainClass", "main_class_index": main_class_index}),
+		A::NestHost { host_class_index, .. } => json!({"k": "NestHost", "host_class_index": host_class_index}),
+		A::NestMembers { classes, .. } => json!({"k": "NestMembers", "classes": classes}),
+		A::Record { components, .. } => json!({"k": "Record", "components": list(components, |c| json!({"name_index": c.name_index, "descriptor_index": c.descriptor_index, "attributes": list(&c.attributes, attr_to)}))}),
+		A::PermittedSubclasses { classes, .. } => json!({"k": "PermittedSubclasses", "classes": classes}),
+		A::Other { info, .. } => json!({"k": "Other", "info": info}),
+	};
+	let idx = match a {
+		A::ConstantValue { attribute_name_index, .. } | A::Code { attribute_name_index, .. } | A::StackMapTable { attribute_name_index, .. }
+		| A::Exceptions { attribute_name_index, .. } | A::InnerClasses { attribute_name_index, .. } | A::EnclosingMethod { attribute_name_index, .. }
+		| A::Synthetic { attribute_name_index } | A::Signature { attribute_name_index, .. } | A::SourceFile { attribute_name_index, .. }
+		| A::SourceDebugExtension { attribute_name_index, .. } | A::LineNumberTable { attribute_name_index, .. }
+		| A::LocalVariableTable { attribute_name_index, .. } | A::LocalVariableTypeTable { attribute_name_index, .. }
+		| A::Deprecated { attribute_name_index } | A::RuntimeVisibleAnnotations { attribute_name_index, .. }
+		| A::RuntimeInvisibleAnnotations { attribute_name_index, .. } | A::RuntimeVisibleParameterAnnotations { attribute_name_index, .. }
+		| A::RuntimeInvisibleParameterAnnotations { attribute_name_index, .. } | A::AnnotationDefault { attribute_name_index, .. }
+		| A::BootstrapMethods { attribute_name_index, .. } | A::MethodParameters { attribute_name_index, .. } | A::Module { attribute_name_index, .. }
+		| A::ModulePackages { attribute_name_index, .. } | A::ModuleMainClass { attribute_name_index, .. } | A::NestHost { attribute_name_index, .. }
+		| A::NestMembers { attribute_name_index, .. } | A::Record { attribute_name_index, .. } | A::PermittedSubclasses { attribute_name_index, .. }
+		| A::Other { attribute_name_index, .. } => *attribute_name_index,
+	};
+	v.as_object_mut().expect("object").insert("attribute_name_index".into(), json!(idx));
+	v
+}
+
+fn member_fields(v: &Value) -> Result<(u16, u16, u16, Vec<r::AttributeInfo>)> {
+	Ok((u16_(v, "access_flags")?, u16_(v, "name_index")?, u16_(v, "descriptor_index")?, table(v, "attributes", attr_from)?))
+}
+pub fn class_from(v: &Value) -> Result<r::ClassFile> {
+	Ok(r::ClassFile {
+		minor_version: u16_(v, "minor_version")?, major_version: u16_(v, "major_version")?,
+		constant_pool: table(v, "constant_pool", cp_from)?,
+		access_flags: u16_(v, "access_flags")?, this_class: u16_(v, "this_class")?, super_class: u16_(v, "super_class")?,
+		interfaces: u16s(v, "interfaces")?,
+		fields: table(v, "fields", |f| { let (access_flags, name_index, descriptor_index, attributes) = member_fields(f)?; Ok(r::FieldInfo { access_flags, name_index, descriptor_index, attributes }) })?,
+		methods: table(v, "methods", |f| { let (access_flags, name_index, descriptor_index, attributes) = member_fields(f)?; Ok(r::MethodInfo { access_flags, name_index, descriptor_index, attributes }) })?,
+		attributes: table(v, "attributes", attr_from)?,
+	})
+}
+pub fn class_to(c: &r::ClassFile) -> Value {
+	json!({
+		"minor_version": c.minor_version, "major_version": c.major_version, "constant_pool": list(&c.constant_pool, cp_to),
+		"access_flags": c.access_flags, "this_class": c.this_class, "super_class": c.super_class, "interfaces": c.interfaces,
+		"fields": list(&c.fields, |f| json!({"access_flags": f.access_flags, "name_index": f.name_index, "descriptor_index": f.descriptor_index, "attributes": list(&f.attributes, attr_to)})),
+		"methods": list(&c.methods, |f| json!({"access_flags": f.access_flags, "name_index": f.name_index, "descriptor_index": f.descriptor_index, "attributes": list(&f.attributes, attr_to)})),
+		"attributes": list(&c.attributes, attr_to),
+	})
+}
+
+// ------------------------------------------------------------------------------------------------
+// observation helpers
+fn be(b: &[u8]) -> u64 { b.iter().fold(0u64, |a, x| (a << 8) | *x as u64) }
+
+/// Cuts `bytes` along the cell widths of `lay` and keeps the cells that carry a role.
+fn cut(bytes: &[u8], lay: &[Value]) -> Value {
+	let mut off = 0usize;
+	let mut out = Vec::new();
+	for c in lay {
+		let role = c.get(0).and_then(Value::as_str).unwrap_or("");
+		let w = c.get(1).and_then(Value::as_u64).unwrap_or(0) as usize;
+		if off + w > bytes.len() { break; }
+		if !role.is_empty() { out.push(json!([role, w, be(&bytes[off..off + w])])); }
+		off += w;
+	}
+	Value::Array(out)
+}
+
+/// cfkit's count / length spans, without those inside structures the crate keeps as bytes (instructions, type annotations).
+fn count_cells(bytes: &[u8], spans: &[Span]) -> Value {
+	Value::Array(spans.iter()
+		.filter(|s| (s.class == "count" || s.class == "length") && s.role != "switch_npairs" && !s.path.contains("TypeAnnotations"))
+		.map(|s| json!([s.role, s.len, be(&bytes[s.off..s.off + s.len])])).collect())
+}
+
+fn cross_cfkit(bytes: &[u8]) -> (bool, String) {
+	match catch_unwind(AssertUnwindSafe(|| parse_class(bytes))) {
+		Ok(Ok(_)) => (true, String::new()),
+		Ok(Err(e)) => (false, e.to_string()),
+		Err(_) => (false, "cfkit panicked".into()),
+	}
+}
+fn cross_duke(bytes: &[u8]) -> (bool, bool) {
+	match catch_unwind(AssertUnwindSafe(|| duke::read_class(&mut Cursor::new(bytes)).is_ok())) {
+		Ok(ok) => (ok, false),
+		Err(_) => (false, true),
+	}
+}
+
+fn exec_value(v: &Value) -> Result<Value> {
+	let x = v.get("x").context("x")?;
+	let c = class_from(x)?;
+	let bytes = c.to_bytes();
+	let mut w = Vec::new();
+	let write_ok = c.write(&mut w).is_ok();
+	let announced = c.length();
+	let back = catch_unwind(AssertUnwindSafe(|| r::ClassFile::read(&mut Cursor::new(&bytes))));
+	let (back_ok, back_equal, back_panic) = match &back {
+		Ok(Ok(c2)) => (true, *c2 == c, false),
+		Ok(Err(_)) => (false, false, false),
+		Err(_) => (false, false, true),
+	};
+	let counts = match v.get("lay") { Some(Value::Array(l)) => cut(&bytes, l), _ => json!([]) };
+	let (cfkit_ok, cfkit_err) = cross_cfkit(&bytes);
+	let (duke_ok, duke_panic) = cross_duke(&bytes);
+	Ok(json!({
+		"len": bytes.len(), "announced": announced, "bytes": bytes, "write_same": write_ok && w == bytes, "counts": counts,
+		"back_ok": back_ok, "back_equal": back_equal, "back_panic": back_panic,
+		"cfkit_ok": cfkit_ok, "cfkit_err": cfkit_err, "duke_ok": duke_ok, "duke_panic": duke_panic,
+	}))
+}
+
+// ------------------------------------------------------------------------------------------------
+// class files by id
+fn corpus() -> &'static HashMap<String, Vec<u8>> {
+	static C: OnceLock<HashMap<String, Vec<u8>>> = OnceLock::new();
+	C.get_or_init(|| cfkit::corpus::corpus_classes("thorough").into_iter().collect())
+}
+fn sample_facts() -> &'static HashMap<String, Value> {
+	static S: OnceLock<HashMap<String, Value>> = OnceLock::new();
+	S.get_or_init(|| cfkit::samples::sample_classes().into_iter().collect())
+}
+fn class_bytes(id: &str) -> Result<Vec<u8>> {
+	let enc = |name: &str| cfkit::asm::standard_encodings().into_iter().find(|(n, _)| *n == name).map(|(_, e)| e).with_context(|| format!("encoding {name}"));
+	if let Some(p) = id.strip_prefix("corpus:") {
+		return corpus().get(p).cloned().with_context(|| format!("no corpus class {p}"));
+	}
+	if let Some(e) = id.strip_prefix("kitchen:") {
+		return cfkit::asm::assemble(&cfkit::samples::kitchen_sink_facts(), &enc(e)?).map_err(|e| anyhow!("assemble: {e:?}"));
+	}
+	if let Some(rest) = id.strip_prefix("sample:") {
+		let (name, e) = rest.rsplit_once(':').context("sample id")?;
+		let f = sample_facts().get(name).with_context(|| format!("no sample {name}"))?;
+		return cfkit::asm::assemble(f, &enc(e)?).map_err(|e| anyhow!("assemble: {e:?}"));
+	}
+	bail!("unknown class id {id}")
+}
+
+/// name of the innermost attribute a span path lies in (`method[2].attr[0]:Code.attr[1]` -> attribute 1 of the Code)
+fn enclosing_attr(path: &str, attr_names: &BTreeMap<String, String>) -> String {
+	let Some(p) = path.rfind("attr[") else { return String::new() };
+	let close = match path[p..].find(']') { Some(c) => p + c + 1, None => return String::new() };
+	attr_names.get(&path[..close]).cloned().unwrap_or_default()
+}
+
+/// names of the attributes the independent reader kept opaque (facts: "unknown": [{"name", "bytes"}..] at every level)
+fn opaque_names(facts: &Value, out: &mut BTreeSet<String>) {
+	match facts {
+		Value::Array(a) => a.iter().for_each(|e| opaque_names(e, out)),
+		Value::Object(m) => for (k, v) in m {
+			if k == "unknown" {
+				for u in v.as_array().unwrap_or(&EMPTY) { if let Some(n) = u.get("name").and_then(Value::as_str) { out.insert(n.to_owned()); } }
+			} else {
+				opaque_names(v, out);
+			}
+		},
+		_ => {},
+	}
+}
+
+const X_LIMIT: usize = 40000;
+
+fn exec_bytes(v: &Value) -> Result<Value> {
+	let id = v.get("id").and_then(Value::as_str).context("id")?;
+	let input = class_bytes(id)?;
+	let n = input.len();
+	let mut g = Map::new();
+	g.insert("n".into(), json!(n));
+	// what an independent strict reader sees in the input
+	let parsed = catch_unwind(AssertUnwindSafe(|| parse_class(&input))).ok().and_then(|p| p.ok());
+	g.insert("in_ok".into(), json!(parsed.is_some()));
+	let mut attr_names: BTreeMap<String, String> = BTreeMap::new();   // path of the attribute header -> name
+	let mut in_attrs: BTreeSet<String> = BTreeSet::new();
+	let mut in_kinds: BTreeSet<String> = BTreeSet::new();
+	if let Some(p) = &parsed {
+		let mut utf8: HashMap<u64, String> = HashMap::new();
+		let mut lens: HashMap<String, u64> = HashMap::new();
+		for s in &p.spans {
+			if s.role == "cp_utf8_len" { lens.insert(s.path.clone(), be(&input[s.off..s.off + s.len])); }
+			if s.role == "cp_utf8_bytes" {
+				if let Some(i) = s.path.strip_prefix("cp[").and_then(|t| t.strip_suffix(']')).and_then(|t| t.parse::<u64>().ok()) {
+					utf8.insert(i, String::from_utf8_lossy(&input[s.off..s.off + s.len]).into_owned());
+				}
+			}
+		}
+		for s in &p.spans {
+			if s.role == "attr_name" {
+				let name = utf8.get(&be(&input[s.off..s.off + s.len])).cloned().unwrap_or_default();
+				in_attrs.insert(name.clone());
+				attr_names.insert(s.path.clone(), name);
+			}
+		}
+		for k in p.raw.get("pool").and_then(Value::as_array).unwrap_or(&EMPTY) {
+			if let Some(k) = k.as_str() { if k != "-" { in_kinds.insert(k.to_owned()); } }
+		}
+		g.insert("in_cells".into(), count_cells(&input, &p.spans));
+		let mut foreign = BTreeSet::new();
+		opaque_names(&p.facts, &mut foreign);
+		g.insert("in_foreign".into(), json!(foreign.into_iter().filter(|n| ATTR_KINDS.contains(&n.as_str()) && n != "Other").collect::<Vec<_>>()));
+	} else {
+		g.insert("in_cells".into(), json!([]));
+		g.insert("in_foreign".into(), json!([]));
+	}
+	g.insert("in_wide".into(), json!(in_kinds.contains("Long") || in_kinds.contains("Double")));
+	g.insert("in_kinds".into(), json!(in_kinds));
+	g.insert("in_attrs".into(), json!(in_attrs));
+	// the crate
+	let read = catch_unwind(AssertUnwindSafe(|| r::ClassFile::read(&mut Cursor::new(&input))));
+	let (read_ok, read_panic, read_err) = match &read {
+		Ok(Ok(_)) => (true, false, String::new()),
+		Ok(Err(e)) => (false, false, e.to_string()),
+		Err(_) => (false, true, String::new()),
+	};
+	g.insert("read_ok".into(), json!(read_ok));
+	g.insert("read_panic".into(), json!(read_panic));
+	g.insert("read_err".into(), json!(read_err));
+	let (mut out_n, mut first_diff, mut announced) = (json!(-1), json!(-1), json!(-1));
+	// absent observations are false / [] (TLC's JSON reader has no null)
+	let (mut out_cfkit_ok, mut out_duke_ok, mut out_cells, mut diff, mut x) = (json!(false), json!(false), json!([]), json!([]), json!([]));
+	g.insert("in_duke_ok".into(), json!(cross_duke(&input).0));
+	if let Ok(Ok(c)) = &read {
+		let out = c.to_bytes();
+		out_n = json!(out.len());
+		announced = json!(c.length());
+		let fd = input.iter().zip(out.iter()).position(|(a, b)| a != b).or(if out.len() != n { Some(out.len().min(n)) } else { None });
+		first_diff = json!(fd.map(|o| o as i64).unwrap_or(-1));
+		if out == input {
+			out_cfkit_ok = json!(parsed.is_some());
+			out_cells = g.get("in_cells").cloned().unwrap_or(json!([]));
+			out_duke_ok = json!(cross_duke(&out).0);
+		} else {
+			let po = catch_unwind(AssertUnwindSafe(|| parse_class(&out))).ok().and_then(|p| p.ok());
+			out_cfkit_ok = json!(po.is_some());
+			out_cells = po.map(|p| count_cells(&out, &p.spans)).unwrap_or(json!([]));
+			out_duke_ok = json!(cross_duke(&out).0);
+		}
+		if let (Some(o), Some(p)) = (fd, &parsed) {
+			if let Some(s) = p.spans.iter().find(|s| s.off <= o && o < s.off + s.len) {
+				let val = |b: &[u8]| if s.len <= 4 && s.off + s.len <= b.len() { json!(be(&b[s.off..s.off + s.len])) } else { json!(-1) };
+				diff = json!({"off": o, "role": s.role, "path": s.path, "attr": enclosing_attr(&s.path, &attr_names), "in_v": val(&input), "out_v": val(&out)});
+			} else {
+				diff = json!({"off": o, "role": "beyond-the-class", "path": "", "attr": "", "in_v": -1, "out_v": -1});
+			}
+		}
+		if n <= X_LIMIT { x = class_to(c); }
+	}
+	g.insert("out_n".into(), out_n);
+	g.insert("first_diff".into(), first_diff);
+	g.insert("announced".into(), announced);
+	g.insert("out_cfkit_ok".into(), out_cfkit_ok);
+	g.insert("out_duke_ok".into(), out_duke_ok);
+	g.insert("out_cells".into(), out_cells);
+	g.insert("diff".into(), diff);
+	g.insert("has_x".into(), json!(x.is_object()));
+	g.insert("x".into(), x);
+	Ok(Value::Object(g))
+}
+
+pub fn exec(v: &Value) -> Result<Value> {
+	match v.get("op").and_then(Value::as_str) {
+		Some("value") => exec_value(v),
+		Some("bytes") => exec_bytes(v),
+		o => bail!("C20: unknown op {o:?}"),
+	}
+}
+
+// ------------------------------------------------------------------------------------------------
+// random raw values: every attribute kind at every level, tables of 0..6 elements, nesting up to 3, numbers over the
+// whole range of their width; attributes are named through the pool by the JVMS slot rule
+const ATTR_KINDS: [&str; 29] = ["ConstantValue", "Code", "StackMapTable", "Exceptions", "InnerClasses", "EnclosingMethod", "Synthetic", "Signature",
+	"SourceFile", "SourceDebugExtension", "LineNumberTable", "LocalVariableTable", "LocalVariableTypeTable", "Deprecated",
+	"RuntimeVisibleAnnotations", "RuntimeInvisibleAnnotations", "RuntimeVisibleParameterAnnotations", "RuntimeInvisibleParameterAnnotations",
+	"AnnotationDefault", "BootstrapMethods", "MethodParameters", "Module", "ModulePackages", "ModuleMainClass", "NestHost", "NestMembers",
+	"Record", "PermittedSubclasses", "Other"];
+const CP_KINDS: [&str; 17] = ["Utf8", "Integer", "Float", "Long", "Double", "Class", "String", "Fieldref", "Methodref", "InterfaceMethodref",
+	"NameAndType", "MethodHandle", "MethodType", "Dynamic", "InvokeDynamic", "Module", "Package"];
+const OTHER_NAMES: [&str; 4] = ["RuntimeVisibleTypeAnnotations", "RuntimeInvisibleTypeAnnotations", "Xy", "code"];
+
+struct G { rnd: StdRng, pool: Vec<Value>, names: HashMap<String, usize>, wide: bool }
+
+impl G {
+	fn u16v(&mut self) -> u16 {
+		match self.rnd.gen_range(0..10) { 0 => 0, 1 => 255, 2 => 256, 3 => 65535, 4 => self.rnd.gen_range(0..8), _ => self.rnd.gen() }
+	}
+	fn u8v(&mut self) -> u8 { match self.rnd.gen_range(0..6) { 0 => 0, 1 => 255, _ => self.rnd.gen() } }
+	fn hv(&mut self) -> Value { json!([self.u16v(), self.u16v()]) }
+	fn n(&mut self, max: usize) -> usize { if self.rnd.gen_bool(0.25) { 0 } else { self.rnd.gen_range(0..=max) } }
+	fn u16list(&mut self, max: usize) -> Value { let n = self.n(max); Value::Array((0..n).map(|_| json!(self.u16v())).collect()) }
+	fn bytes(&mut self, max: usize) -> Value { let n = self.n(max); Value::Array((0..n).map(|_| json!(self.u8v())).collect()) }
+	fn obj16(&mut self, fields: &[&str]) -> Value { Value::Object(fields.iter().map(|f| (f.to_string(), json!(self.u16v()))).collect()) }
+
+	fn filler(&mut self) -> Value {
+		let kinds: Vec<&str> = if self.wide { CP_KINDS.to_vec() } else { CP_KINDS.iter().copied().filter(|k| *k != "Long" && *k != "Double").collect() };
+		let k = if self.wide && self.rnd.gen_bool(0.4) { ["Long", "Double"][self.rnd.gen_range(0..2)] } else { kinds[self.rnd.gen_range(0..kinds.len())] };
+		let mut v = match k {
+			"Utf8" => json!({"bytes": self.bytes(8)}),
+			"Integer" | "Float" => json!({"bytes": self.hv()}),
+			"Long" | "Double" => json!({"high_bytes": self.hv(), "low_bytes": self.hv()}),
+			"Class" | "Module" | "Package" => self.obj16(&["name_index"]),
+			"String" => self.obj16(&["string_index"]),
+			"Fieldref" | "Methodref" | "InterfaceMethodref" => self.obj16(&["class_index", "name_and_type_index"]),
+			"NameAndType" => self.obj16(&["name_index", "descriptor_index"]),
+			"MethodHandle" => json!({"reference_kind": self.u8v(), "reference_index": self.u16v()}),
+			"MethodType" => self.obj16(&["descriptor_index"]),
+			_ => self.obj16(&["bootstrap_method_attr_index", "name_and_type_index"]),
+		};
+		v["k"] = json!(k);
+		v
+	}
+	/// position (0-based) of the Utf8 entry with this name, added on first use (preceded by a few fillers)
+	fn name_pos(&mut self, name: &str) -> usize {
+		if let Some(p) = self.names.get(name) { return *p; }
+		let f = self.rnd.gen_range(0..3);
+		for _ in 0..f { let e = self.filler(); self.pool.push(e); }
+		self.pool.push(json!({"k": "Utf8", "bytes": name.as_bytes()}));
+		self.names.insert(name.to_owned(), self.pool.len() - 1);
+		self.pool.len() - 1
+	}
+	fn vt(&mut self) -> Value {
+		match self.rnd.gen_range(0..9) {
+			0 => json!({"k": "Top"}), 1 => json!({"k": "Integer"}), 2 => json!({"k": "Float"}), 3 => json!({"k": "Double"}), 4 => json!({"k": "Long"}),
+			5 => json!({"k": "Null"}), 6 => json!({"k": "UninitializedThis"}),
+			7 => json!({"k": "Object", "cpool_index": self.u16v()}),
+			_ => json!({"k": "Uninitialized", "offset": self.u16v()}),
+		}
+	}
+	fn vts(&mut self, lo: usize, hi: usize) -> Value { let n = self.rnd.gen_range(lo..=hi); Value::Array((0..n).map(|_| self.vt()).collect()) }
+	fn frame(&mut self) -> Value {
+		let small = [0u8, 1, 62, 63][self.rnd.gen_range(0..4)];
+		match self.rnd.gen_range(0..7) {
+			0 => json!({"k": "SameFrame", "offset_delta": small}),
+			1 => json!({"k": "SameLocals1StackItemFrame", "offset_delta": small, "stack": self.vt()}),
+			2 => json!({"k": "SameLocals1StackItemFrameExtended", "offset_delta": self.u16v(), "stack": self.vt()}),
+			3 => json!({"k": "ChopFrame", "chop": self.rnd.gen_range(1..=3), "offset_delta": self.u16v()}),
+			4 => json!({"k": "SameFrameExtended", "offset_delta": self.u16v()}),
+			5 => json!({"k": "AppendFrame", "offset_delta": self.u16v(), "locals": self.vts(1, 3)}),
+			_ => json!({"k": "FullFrame", "offset_delta": self.u16v(), "locals": self.vts(0, 5), "stack": self.vts(0, 4)}),
+		}
+	}
+	fn ev(&mut self, depth: usize) -> Value {
+		let consts = ["Byte", "Char", "Double", "Float", "Integer", "Long", "Short", "Boolean", "String"];
+		let c = self.rnd.gen_range(0..if depth >= 3 { 11 } else { 13 });
+		match c {
+			0..=8 => json!({"k": consts[c], "const_value_index": self.u16v()}),
+			9 => json!({"k": "Enum", "type_name_index": self.u16v(), "const_name_index": self.u16v()}),
+			10 => json!({"k": "Class", "class_info_index": self.u16v()}),
+			11 => json!({"k": "Annotation", "annotation_value": self.anno(depth + 1)}),
+			_ => { let n = self.n(4); json!({"k": "Array", "values": (0..n).map(|_| self.ev(depth + 1)).collect::<Vec<_>>()}) },
+		}
+	}
+	fn anno(&mut self, depth: usize) -> Value {
+		let n = self.n(3);
+		json!({"type_index": self.u16v(), "element_value_pairs": (0..n).map(|_| json!({"element_name_index": self.u16v(), "value": self.ev(depth)})).collect::<Vec<_>>()})
+	}
+	fn annos(&mut self) -> Value { let n = self.n(3); Value::Array((0..n).map(|_| self.anno(1)).collect()) }
+	fn rows(&mut self, max: usize, fields: &[&str]) -> Value { let n = self.n(max); Value::Array((0..n).map(|_| self.obj16(fields)).collect()) }
+	fn attrs(&mut self, depth: usize, max: usize) -> Value {
+		let n = if depth >= 3 { 0 } else { self.n(max) };
+		Value::Array((0..n).map(|_| self.attr(depth)).collect())
+	}
+	/// the attribute's name position is stored under "_name" and replaced by the pool index at the end
+	fn attr(&mut self, depth: usize) -> Value {
+		let k = ATTR_KINDS[self.rnd.gen_range(0..ATTR_KINDS.len())];
+		let name = if k == "Other" { OTHER_NAMES[self.rnd.gen_range(0..OTHER_NAMES.len())] } else { k };
+		let pos = self.name_pos(name);
+		let mut v = match k {
+			"ConstantValue" => self.obj16(&["constantvalue_index"]),
+			"Code" => json!({"max_stack": self.u16v(), "max_locals": self.u16v(), "code": self.bytes(12),
+				"exception_table": self.rows(3, &["start_pc", "end_pc", "handler_pc", "catch_type"]), "attributes": self.attrs(depth + 1, 3)}),
+			"StackMapTable" => { let n = self.n(6); json!({"entries": (0..n).map(|_| self.frame()).collect::<Vec<_>>()}) },
+			"Exceptions" => json!({"exception_index_table": self.u16list(5)}),
+			"InnerClasses" => json!({"classes": self.rows(4, &["inner_class_info_index", "outer_class_info_index", "inner_name_index", "inner_class_access_flags"])}),
+			"EnclosingMethod" => self.obj16(&["class_index", "method_index"]),
+			"Synthetic" | "Deprecated" => json!({}),
+			"Signature" => self.obj16(&["signature_index"]),
+			"SourceFile" => self.obj16(&["sourcefile_index"]),
+			"SourceDebugExtension" => json!({"debug_extension": self.bytes(10)}),
+			"LineNumberTable" => json!({"line_number_table": self.rows(5, &["start_pc", "line_number"])}),
+			"LocalVariableTable" => json!({"local_variable_table": self.rows(4, &["start_pc", "length", "name_index", "descriptor_index", "index"])}),
+			"LocalVariableTypeTable" => json!({"local_variable_type_table": self.rows(4, &["start_pc", "length", "name_index", "signature_index", "index"])}),
+			"RuntimeVisibleAnnotations" | "RuntimeInvisibleAnnotations" => json!({"annotations": self.annos()}),
+			"RuntimeVisibleParameterAnnotations" | "RuntimeInvisibleParameterAnnotations" => {
+				let n = self.n(4);
+				json!({"parameter_annotations": (0..n).map(|_| json!({"annotations": self.annos()})).collect::<Vec<_>>()})
+			},
+			"AnnotationDefault" => json!({"default_value": self.ev(1)}),
+			"BootstrapMethods" => { let n = self.n(4); json!({"bootstrap_methods": (0..n).map(|_| json!({"bootstrap_method_ref": self.u16v(), "bootstrap_arguments": self.u16list(4)})).collect::<Vec<_>>()}) },
+			"MethodParameters" => json!({"parameters": self.rows(6, &["name_index", "access_flags"])}),
+			"Module" => {
+				let (a, b, c) = (self.n(3), self.n(3), self.n(3));
+				json!({"module_name_index": self.u16v(), "module_flags": self.u16v(), "module_version_index": self.u16v(),
+					"requires": self.rows(3, &["requires_index", "requires_flags", "requires_version_index"]),
+					"exports": (0..a).map(|_| json!({"exports_index": self.u16v(), "exports_flags": self.u16v(), "exports_to_index": self.u16list(3)})).collect::<Vec<_>>(),
+					"opens": (0..b).map(|_| json!({"opens_index": self.u16v(), "opens_flags": self.u16v(), "opens_to_index": self.u16list(3)})).collect::<Vec<_>>(),
+					"uses_index": self.u16list(3),
+					"provides": (0..c).map(|_| json!({"provides_index": self.u16v(), "provides_with_index": self.u16list(3)})).collect::<Vec<_>>()})
+			},
+			"ModulePackages" => json!({"package_index": self.u16list(5)}),
+			"ModuleMainClass" => self.obj16(&["main_class_index"]),
+			"NestHost" => self.obj16(&["host_class_index"]),
+			"NestMembers" | "PermittedSubclasses" => json!({"classes": self.u16list(5)}),
+			"Record" => {
+				let n = self.n(3);
+				json!({"components": (0..n).map(|_| json!({"name_index": self.u16v(), "descriptor_index": self.u16v(), "attributes": self.attrs(depth + 1, 2)})).collect::<Vec<_>>()})
+			},
+			_ => json!({"info": self.bytes(12)}),
+		};
+		v["k"] = json!(k);
+		v["_name"] = json!(pos);
+		v
+	}
+	fn members(&mut self, max: usize) -> Value {
+		let n = self.n(max);
+		Value::Array((0..n).map(|_| json!({"access_flags": self.u16v(), "name_index": self.u16v(), "descriptor_index": self.u16v(), "attributes": self.attrs(1, 3)})).collect())
+	}
+}
+
+/// replaces every "_name" (position in the entry list) by "attribute_name_index" (pool index, JVMS 4.4.5)
+fn resolve_names(v: &mut Value, index_of: &[u64]) {
+	match v {
+		Value::Array(a) => a.iter_mut().for_each(|e| resolve_names(e, index_of)),
+		Value::Object(m) => {
+			if let Some(p) = m.remove("_name") { m.insert("attribute_name_index".into(), json!(index_of[p.as_u64().unwrap_or(0) as usize])); }
+			m.values_mut().for_each(|e| resolve_names(e, index_of));
+		},
+		_ => {},
+	}
+}
+
+fn random_value(seed: u64) -> Value {
+	let mut rnd = StdRng::seed_from_u64(seed);
+	let wide = rnd.gen_bool(0.25);
+	let mut g = G { rnd, pool: Vec::new(), names: HashMap::new(), wide };
+	let lead = g.n(3);
+	for _ in 0..lead { let e = g.filler(); g.pool.push(e); }
+	let fields = g.members(3);
+	let methods = g.members(3);
+	let attributes = g.attrs(1, 4);
+	let tail = g.n(3);
+	for _ in 0..tail { let e = g.filler(); g.pool.push(e); }
+	let mut index_of = Vec::new();
+	let mut idx = 1u64;
+	for e in &g.pool {
+		index_of.push(idx);
+		idx += if matches!(e["k"].as_str(), Some("Long") | Some("Double")) { 2 } else { 1 };
+	}
+	let mut x = json!({
+		"minor_version": g.u16v(), "major_version": g.u16v(), "constant_pool": g.pool.clone(), "access_flags": g.u16v(),
+		"this_class": g.u16v(), "super_class": g.u16v(), "interfaces": g.u16list(4), "fields": fields, "methods": methods, "attributes": attributes,
+	});
+	resolve_names(&mut x, &index_of);
+	x
+}
+
+/// values at the edges of the count widths: u1 counts of 255, u2 counts and lengths above 255 (both bytes used) and of
+/// 65535, u4 lengths above 65535
+fn boundary_values() -> Vec<Value> {
+	let utf = |s: &str| json!({"k": "Utf8", "bytes": s.as_bytes()});
+	let class = |pool: Vec<Value>, interfaces: Vec<u16>, methods: Vec<Value>, attributes: Vec<Value>| json!({
+		"minor_version": 0, "major_version": 65, "constant_pool": pool, "access_flags": 0x21, "this_class": 2, "super_class": 0,
+		"interfaces": interfaces, "fields": [], "methods": methods, "attributes": attributes});
+	let method = |attrs: Vec<Value>| json!({"access_flags": 1, "name_index": 1, "descriptor_index": 1, "attributes": attrs});
+	let mut out = Vec::new();
+	// byte runs: Utf8 of 65535 bytes, code of 66000 bytes, debug extension of 70000 bytes; 300 interfaces; 255 parameters
+	out.push(class(
+		vec![utf("A"), json!({"k": "Class", "name_index": 1}), utf("SourceDebugExtension"), json!({"k": "Utf8", "bytes": vec![65u8; 65535]}),
+			utf("RuntimeVisibleParameterAnnotations"), utf("Code")],
+		(0..300).collect(),
+		vec![method(vec![
+			json!({"k": "RuntimeVisibleParameterAnnotations", "attribute_name_index": 5, "parameter_annotations": (0..255).map(|_| json!({"annotations": []})).collect::<Vec<_>>()}),
+			json!({"k": "Code", "attribute_name_index": 6, "max_stack": 65535, "max_locals": 65535, "code": (0..66000u32).map(|i| (i % 251) as u8).collect::<Vec<_>>(), "exception_table": [], "attributes": []}),
+		])],
+		vec![json!({"k": "SourceDebugExtension", "attribute_name_index": 3, "debug_extension": (0..70000u32).map(|i| (i * 7 % 256) as u8).collect::<Vec<_>>()})],
+	));
+	// tables of 255 / 256 / 300 rows, Utf8 of 255 and 256 bytes
+	out.push(class(
+		vec![utf("A"), json!({"k": "Class", "name_index": 1}), utf("Exceptions"), utf("InnerClasses"), utf("LineNumberTable"), utf("Code"),
+			json!({"k": "Utf8", "bytes": vec![97u8; 255]}), json!({"k": "Utf8", "bytes": vec![98u8; 256]}), utf("RuntimeInvisibleParameterAnnotations"),
+			utf("PermittedSubclasses"), utf("BootstrapMethods")],
+		vec![],
+		vec![method(vec![
+			json!({"k": "Exceptions", "attribute_name_index": 3, "exception_index_table": (0..256).collect::<Vec<u16>>()}),
+			json!({"k": "RuntimeInvisibleParameterAnnotations", "attribute_name_index": 9, "parameter_annotations": (0..255).map(|i| json!({"annotations": if i == 254 { json!([{"type_index": 7, "element_value_pairs": []}]) } else { json!([]) }})).collect::<Vec<_>>()}),
+			json!({"k": "Code", "attribute_name_index": 6, "max_stack": 0, "max_locals": 0, "code": [177],
+				"exception_table": (0..257).map(|i| json!({"start_pc": i, "end_pc": 65535, "handler_pc": 256, "catch_type": 0})).collect::<Vec<_>>(),
+				"attributes": [{"k": "LineNumberTable", "attribute_name_index": 5, "line_number_table": (0..300).map(|i| json!({"start_pc": i, "line_number": 65535 - i})).collect::<Vec<_>>()}]}),
+		])],
+		vec![json!({"k": "InnerClasses", "attribute_name_index": 4, "classes": (0..256).map(|i| json!({"inner_class_info_index": i, "outer_class_info_index": 0, "inner_name_index": 65535, "inner_class_access_flags": 0x7fff})).collect::<Vec<_>>()}),
+			json!({"k": "PermittedSubclasses", "attribute_name_index": 10, "classes": (0..300).collect::<Vec<u16>>()}),
+			json!({"k": "BootstrapMethods", "attribute_name_index": 11, "bootstrap_methods": (0..256).map(|i| json!({"bootstrap_method_ref": i, "bootstrap_arguments": if i == 0 { (0..256).collect::<Vec<u16>>() } else { vec![] }})).collect::<Vec<_>>()})],
+	));
+	// 300 constants, the last ones named; 300 fields-worth of attributes at the class
+	let mut pool = vec![utf("A"), json!({"k": "Class", "name_index": 1})];
+	for i in 0..300u32 { pool.push(json!({"k": "Integer", "bytes": [i, 65535 - i]})); }
+	pool.push(utf("Deprecated"));
+	out.push(class(pool, vec![], vec![], (0..300).map(|_| json!({"k": "Deprecated", "attribute_name_index": 303})).collect()));
+	out
+}
+
+pub fn gen(seed: u64, n: usize) -> Result<Vec<Value>> {
+	let thorough = n >= 1500;
+	let mut rnd = StdRng::seed_from_u64(seed ^ 0xC20);
+	let mut out = Vec::new();
+	// class files: every hand-written sample under every standard encoding, the kitchen sink, the compiled corpus
+	let encs: Vec<&'static str> = cfkit::asm::standard_encodings().into_iter().map(|(n, _)| n).collect();
+	for e in &encs { out.push(json!({"op": "bytes", "id": format!("kitchen:{e}")})); }
+	let mut names: Vec<String> = sample_facts().keys().cloned().collect();
+	names.sort();
+	for name in &names {
+		for e in &encs {
+			let id = format!("sample:{name}:{e}");
+			if class_bytes(&id).is_ok() { out.push(json!({"op": "bytes", "id": id})); }
+		}
+	}
+	let mut ids: Vec<String> = cfkit::corpus::corpus_classes(if thorough { "thorough" } else { "quick" }).into_iter().map(|(id, _)| id).collect();
+	ids.sort();
+	if !thorough {
+		ids.shuffle(&mut rnd);
+		ids.truncate(150);
+		ids.sort();
+	}
+	for id in ids { out.push(json!({"op": "bytes", "id": format!("corpus:{id}")})); }
+	// raw values
+	for x in boundary_values() { out.push(json!({"op": "value", "wf": false, "x": x})); }
+	let values = n.saturating_sub(out.len()).max(200);
+	for i in 0..values {
+		out.push(json!({"op": "value", "wf": false, "x": random_value(seed.wrapping_mul(1_000_003).wrapping_add(i as u64))}));
+	}
+	Ok(out)
+}
